@@ -91,6 +91,16 @@ CHECKS = {
     note='Assumes seed/insertion order act only through set/dict iteration order; name `set` in two dznpy modules is bound to an order-controlled '
          'set subclass during the build harness. MD5 identity checked on realised witnesses against an independent RFC 1321 implementation.',
     technique='symbolic path exploration (CrossHair + z3) with iteration order as a symbolic permutation; replay across real hash seeds'),
+ 'C07': dict(
+    cat='model_checking', ref='DESIGN.md §3 C07',
+    text='For a bounded family of models (same-named interface/extern/enum declarations placed in 7 namespaces over a 2-letter alphabet, '
+         'references spelled with 0-2 qualifiers, every referring scope) the real Builder.build is run and the C++ type in the generated '
+         'header/source is compared with the reference look-up of the property: unique on-chain declaration of the right kind => its type, '
+         'otherwise FindError / MultiClientCfgError; off-chain declarations never matter. Covers port types, event-parameter types (in and out '
+         'events) and the claim-reply enum.',
+    note='Namespace identifiers opaque (2-letter alphabet bounds distinct namespaces); <=2 (quick) / 3 (thorough) same-named declarations; '
+         'well-formed models type parameters with externs.',
+    technique='symbolic path exploration (CrossHair + z3) over an int-coded model family, real Builder.build per path, C++ type read from output'),
 }
 
 NOT_APPLICABLE = {
